@@ -1,15 +1,30 @@
 #!/usr/bin/env python3
-"""Prints the sensitivity table (markdown) from /verif/seeded/*/meta.json."""
+"""Prints the sensitivity table (markdown) from /verif/seeded/*/meta.json (filled by bin/seeded_sweep.py)."""
 import json, os
 root = '/verif/seeded'
-print('| seeded change | property | needs to manifest | caught by | first violation class |')
-print('|---|---|---|---|---|')
+rows = []
 for n in sorted(os.listdir(root)):
     p = os.path.join(root, n, 'meta.json')
     if not os.path.exists(p):
         continue
     m = json.load(open(p))
     det = m.get('detection', {})
-    caught = [c for c, v in det.items() if v.get('exit') == 1]
-    cls = next((v.get('detail', '') for v in det.values() if v.get('exit') == 1), '')
-    print(f"| {n} | {m['property']} | {m.get('needs','')[:90]} | {', '.join(caught) or ('MISSED' if det else 'not run')} | {cls[:80]} |")
+    own = det.get(m['property'], {})
+    caught = [c for c, v in det.items() if v.get('exit') == 1 and v.get('violation')]
+    missed = [c for c, v in det.items() if v.get('exit') == 0]
+    broken = [c for c, v in det.items() if v.get('exit') not in (0, 1)]
+    cls = ''
+    for c in [m['property']] + caught:
+        v = det.get(c, {})
+        if v.get('exit') == 1 and v.get('detail'):
+            cls = v['detail'].split('|')[0].strip()
+            break
+    status = 'caught by own check' if own.get('exit') == 1 and own.get('violation') else ('caught by ' + ', '.join(caught) if caught else ('MISSED' if det else 'not run'))
+    rows.append((n, m['property'], m.get('needs', '')[:110], status, ', '.join(caught), ', '.join(missed + [b + '(machinery)' for b in broken]), cls[:70], m.get('scope_note', '')))
+print('| seeded change | property | needs to manifest | result (quick tier) | caught by | not caught by | first violation | note |')
+print('|---|---|---|---|---|---|---|---|')
+for r in rows:
+    print('| ' + ' | '.join(r) + ' |')
+own = sum(1 for r in rows if r[3] == 'caught by own check')
+anyc = sum(1 for r in rows if r[3].startswith('caught'))
+print(f'\n{len(rows)} seeded changes: {own} caught by the check of their own property, {anyc} caught by some check, {len(rows)-anyc} missed.')
